@@ -37,9 +37,10 @@ class Hole(Edit):
 class Between(Edit):
     """replace the text from the first occurrence of `start` through the first occurrence of `end` after it
     (both inclusive) by `new`: a hole whose dropped text is identified by its two ends and its sha256"""
-    def __init__(self, start, end, new, why="", kind="hole"):
+    def __init__(self, start, end, new, why="", kind="hole", pin=None):
         self.start, self.end, self.new, self.why, self.kind = start, end, new, why, kind
         self.sha = None
+        self.pin = pin     # expected sha256 prefix of the dropped text: a change inside the hole is an anchor loss (exit 2), not a silent pass
     def apply(self, text, ctx):
         if text.count(self.start) != 1:
             raise ExtractError(f"{ctx}: Between start matched {text.count(self.start)}x: {self.start[:60]!r}")
@@ -50,6 +51,8 @@ class Between(Edit):
         b += len(self.end)
         self.sha = hashlib.sha256(text[a:b].encode()).hexdigest()[:12]
         self.dropped = text[a:b]
+        if self.pin and self.pin != self.sha:
+            raise ExtractError(f"{ctx}: text inside the hole `{self.start[:40]} …` changed (sha256 {self.sha}, pinned {self.pin}): its assumed contract no longer describes it")
         return text[:a] + self.new + text[b:]
     def describe(self):
         return f"{self.kind}: {' '.join(self.start.split())[:60]} … {' '.join(self.end.split())[:40]} => {' '.join(self.new.split())[:60]} [sha256 {self.sha}]" + (f" ({self.why})" if self.why else "")
